@@ -134,3 +134,21 @@ def same_object_programs():
         out.append("stel n = %s; als n == n { 1 } anders { 2 }" % v)
         out.append("stel n = %s; stel k = 0; zolang n != n && k < 3 { k += 1 }; k" % v)
     return out
+
+
+def cross_type_fused_programs():
+    """a LOCAL holding a value of every type compared / combined with an integer LITERAL (the shapes the compiler fuses), both operand
+    orders, in a function and at top level: values of different type never compare equal and never take part in integer arithmetic,
+    whatever their payload bits are (ja = 1?, null = 0?, a function = its descriptor?)"""
+    vals = ["ja", "nee", "als nee { 1 }", "functie(q) { q }", "functie() { 1 }", "1.0", "0.0", '"1"', '""', "[1]", "[]", "1", "0"]
+    lits = ["0", "1", "2", "65536", "196608", "196609", "3"]
+    ops = ["==", "!=", "<", "<=", ">", ">=", "+", "-", "*", "/", "%"]
+    out = []
+    for v in vals:
+        for k in lits:
+            for op in ops:
+                out.append("functie(x) { x %s %s }(%s)" % (op, k, v))
+                out.append("functie(x) { %s %s x }(%s)" % (k, op, v))
+            out.append("functie(x) { stel y = x; [y == %s, %s == y, y != %s] }(%s)" % (k, k, k, v))
+            out.append("stel x = %s; [x == %s, %s != x]" % (v, k, k))
+    return out
